@@ -1,0 +1,55 @@
+// SPDX-License-Identifier: MIT OR Apache-2.0
+
+//! Verification hook (only compiled with `--cfg p2panda_p2panda_verif`): schedule points.
+//!
+//! `gate(name).await` completes immediately unless the current thread switched gates on. With
+//! gates on it records its name in a thread-local cell and returns `Pending` exactly once
+//! (without waking), so a test harness which polls futures by hand can decide which task runs
+//! next at this point.
+
+use std::cell::{Cell, RefCell};
+use std::future::Future;
+use std::pin::Pin;
+use std::task::{Context, Poll};
+
+thread_local! {
+    static ENABLED: Cell<bool> = const { Cell::new(false) };
+    static LAST: RefCell<Option<&'static str>> = const { RefCell::new(None) };
+}
+
+/// Switch gates on or off for the current thread.
+pub fn enable(on: bool) {
+    ENABLED.with(|e| e.set(on));
+    LAST.with(|l| *l.borrow_mut() = None);
+}
+
+/// Name of the gate which suspended the most recently polled future, if any (cleared by reading).
+pub fn take_last() -> Option<&'static str> {
+    LAST.with(|l| l.borrow_mut().take())
+}
+
+struct Gate {
+    name: &'static str,
+    yielded: bool,
+}
+
+impl Future for Gate {
+    type Output = ();
+
+    fn poll(mut self: Pin<&mut Self>, _cx: &mut Context<'_>) -> Poll<()> {
+        if self.yielded || !ENABLED.with(|e| e.get()) {
+            return Poll::Ready(());
+        }
+        self.yielded = true;
+        LAST.with(|l| *l.borrow_mut() = Some(self.name));
+        Poll::Pending
+    }
+}
+
+/// Schedule point.
+pub fn gate(name: &'static str) -> impl Future<Output = ()> {
+    Gate {
+        name,
+        yielded: false,
+    }
+}
